@@ -84,3 +84,11 @@ Definition nonneg_cost (cost : option R) : Prop := forall q, cost = Some q -> 0 
 (* the defining property of the error function: erf' z = 2/sqrt(pi) * exp(-z^2) *)
 Definition erf_derivative (erf : R -> R) : Prop :=
   forall z, is_derive erf z (2 / R_sqrt.sqrt PI * Rtrigo_def.exp (- z ^ 2)).
+
+(* the defining property of lgamma at the integers: lgamma(k + 1) = ln(k!)  (Gamma(k + 1) = k!) *)
+Definition lgamma_spec (lgamma : R -> R) : Prop :=
+  forall k : nat, lgamma (INR k + 1) = Rpower.ln (INR (fact k)).
+(* the regularised upper incomplete gamma function at an integer first argument a >= 1:
+   Q(a, x) = exp(-x) * sum_{j < a} x^j / j!   (DLMF 8.4.10) *)
+Definition gammaincc_spec (gammaincc : R -> R -> R) : Prop :=
+  forall (n : nat) (x : R), gammaincc (INR (S n)) x = Rtrigo_def.exp (- x) * sum_n (fun j => x ^ j / INR (fact j)) n.
